@@ -26,7 +26,7 @@ ASSUMPTIONS = ['with a ticking monotonic() the strict error is required only if 
                'than `factor` past the due instant, and forbidden only if the first clock value read inside step() is within '
                '`factor`; in between either behaviour is accepted', 'early sleeps still make progress (a sleep never returns '
                'without advancing the clock)']
-PROBES = ['driven_by_run_until', 'burn_between_calls', 'burn', 'sleep_early', 'sleep_late', 'tick', 'sync', 'strict_error_expected', 'lag_exactly_factor', 'pre_burn',
+PROBES = ['big_int_clock', 'until_in_idle_stretch', 'driven_by_run_until', 'burn_between_calls', 'burn', 'sleep_early', 'sleep_late', 'tick', 'sync', 'strict_error_expected', 'lag_exactly_factor', 'pre_burn',
           'nonstrict_late', 'initial_time_nonzero']
 
 
@@ -76,9 +76,15 @@ def gen(rng, tier):
     w['interrupt'] = rng.choice([0, 1])
     w['cond'] = rng.choice([0, 1])
     prof.handlers = ['cont', 'rewait', 'ret', 'other']
+    big = rng.random() < 0.1
+    if big:
+        prof.pool = 'INTS'           # an integer clock far above 2**53 (nanoseconds since the epoch)
+        prof.handlers = ['cont', 'rewait', 'ret']   # ('other' waits 0.5: a float added to such a clock rounds it)
     case = gen_program(rng, prof)
     factor = rng.choice([0.5, 1.0, 1.0, 2.0])
     case['t0'] = rng.choice([0, 0, 5, 10, -4, -0.5])
+    if big:
+        case['t0'] = rng.choice([10 ** 18, 1700000000 * 10 ** 9 + 123456789, 2 ** 60 + 1])
     burns = [0.25, 0.5, 1.0, 1.0, 2.0, 3.0, factor, factor]
 
     def sprinkle(ops):
@@ -106,7 +112,7 @@ def gen(rng, tier):
         for _ in range(rng.randint(1, 4)):
             r = rng.random()
             if r < 0.5:
-                t = t + rng.choice([0.5, 1, 1, 2, 3])
+                t = t + (rng.choice([1, 1, 2, 3]) if big else rng.choice([0.5, 1, 1, 2, 3]))
                 drive.append(['until', t])
             elif r < 0.8:
                 drive.append(['burn', rng.choice(burns)])
@@ -255,6 +261,8 @@ def run(case):
             stats['sync'] = 1
         if t0:
             stats['initial_time_nonzero'] = 1
+        if isinstance(t0, int) and t0 > 2 ** 53:
+            stats['big_int_clock'] = 1
         obs = Observer(wall, real_start, t0, factor, strict)
         env.obs = obs
         plan = list(rt.get('drive') or []) + [['run']]
@@ -272,6 +280,15 @@ def run(case):
                 try:
                     env.run(until=it[1])
                     done = True
+                    # the stop at it[1] is itself an occurrence due at that instant: the call may not return (with
+                    # now == it[1]) before the wall clock has reached that instant's due time
+                    due_wall = obs.real_start + (it[1] - t0) * factor
+                    if env.now == it[1] and wall.t < due_wall - 1e-9 * max(1.0, abs(due_wall)) and not obs.stop:
+                        viol.append(('C20.2', 'run(until=%r) returned with now=%r at wall time %r, before real_start %r + '
+                                     '(t - %r) * %r = %r' % (it[1], env.now, wall.t, obs.real_start, t0, factor, due_wall)))
+                        break
+                    if env.peek() > it[1]:
+                        stats['until_in_idle_stretch'] = 1
                 except RuntimeError as e:
                     if 'too slow' in str(e).lower():
                         break
